@@ -15,6 +15,14 @@ CHECKS = {
    technique="TLC model checking of RtpsReader.tla + replay into the real reader + TLC trace validation of every ACKNACK/NACKFRAG decoded by an independent wire codec",
    text="Every ACKNACK/NACKFRAG the real reader emits in the replayed and random runs is decoded by an independent codec and judged by the observers of ReaderAbs.tla (base <= lowest unknown, non-decreasing base, listed numbers missing and in range, growing count, lowest missing requested); the same observers are model checked on the implementation-shaped model.",
    note="same as C01; windows wider than 256 reached by the random runs only"),
+ "C04": dict(level="model_checking", engine="tlc+writer-driver", design="§4 C04",
+   technique="TLC model checking of RtpsWriter.tla + replay of TLC behaviours into the real Writer + TLC trace validation (Trace_RtpsWriter.tla)",
+   text="TLC explores every interleaving of write / ACKNACK (any base, bitmap) / match / loss / heartbeat tick / repair timer / cache cleaning / wait of the implementation-shaped writer model within the bound; the datagrams it emits, the retained set and the waiter signal are judged by the observers of WriterAbs.tla (retain, bound, answer, heartbeat range, single-reader). Sampled edges are replayed on the real Writer through the real WriterCommand channel, long random runs (40-300 events, fragmented samples, cleaning across the internal limit of 32) are added, and every datagram is decoded by an independent codec and validated by TLC.",
+   note="bounded constants (spec/MC_RtpsWriter_*.cfg); timers fired through cfg-gated wrappers; fake readers with distinct unicast locators; KeepAll = nothing forces a sample out; a request for a number the reader acknowledged before creates no obligation"),
+ "C20": dict(level="model_checking", engine="tlc+writer-driver", design="§4 C20",
+   technique="TLC model checking of RtpsWriter.tla (AckWaiter) + replay into the real Writer + TLC trace validation of the completion signal",
+   text="The AckWaiter of the implementation-shaped model is explored with all interleavings of writes, ACKNACKs with boundary bases, reader match/loss and the wait call; the completion signal observed on the real Writer after every event of every replayed and random run must be set only if (most generous reading) every reliable reader matched at the call acknowledged everything written before it or was lost, and must be set whenever (strictest reading) that is the case.",
+   note="writer-level command and completion channel; the public sync/async DataWriter API on top of it is exercised by C13"),
 }
 NOT_APPLICABLE = {}
 
